@@ -3,7 +3,8 @@ documented layouts (readme / guides/plssdesc.md): the oracle for 'documented lay
 Used by C20 (mode conservativeness) and by the S half of C01."""
 from engine.contracts import Doc, tr_seg, sec_seg
 
-BLOCKS = ('NE/4', 'Lots 1 - 2', 'W/2, less and except the wellbore', 'that part lying north of the river', 'N/2SW/4, SE/4')
+BLOCKS = ('NE/4', 'Lots 1 - 2', 'W/2, less and except the wellbore', 'that part lying north of the river', 'N/2SW/4, SE/4',
+          'NE/4 and all rights therein', 'the south 40 acres thereof', 'SW/4 as aforesaid', 'E/2 lying west of the drain')
 SEPS = (', ', '\n', '; ')
 LAYOUTS = ('TRS_desc', 'desc_STR', 'S_desc_TR', 'TR_desc_S')
 
